@@ -140,7 +140,7 @@ func C12(j *core.Job) {
 			case v[0] == "PANIC":
 				rep.Count("rejected_with_diagnostic", 1)
 				rep.SetAdd("diagnostics", prng.Derive(0, diagClass(v[1])).Seed())
-			case pk.wrongSig || pk.inj.Kind == "go-yield":
+			case pk.wrongSig || pk.inj.Kind == "go-yield" || pk.inj.Kind == "yield-as-value":
 				rep.Count("violations_must_reject_accepted", 1)
 				viol(pk, "accepted a program that has no source-level meaning (must be rejected)", "")
 			default:
